@@ -347,7 +347,7 @@ def run(tier, seed, started):
     kinds = res.sets.get('deviation_kinds', set())
     if c.get('tx_proofs_checked', 0) < 1000 or c.get('header_proofs_checked', 0) < 100 or \
             not {'stall', 'hold'} <= kinds or not c.get('in_flight_replies_judged'):
-        raise common.Broken(f'vacuous C11 run: {c} {kinds}')
+        common.vacuous(PROP, res, f'vacuous C11 run: {c} {kinds}')
     coverage = {
         'evaluations': c['tx_proofs_checked'] + c['header_proofs_checked'] + c['executions'],
         'distinct_nontrivial': len(res.sets.get('schedules', ())) + c['histories'],
